@@ -14,6 +14,11 @@ CLAIMED = {
         note="Bounded: MC W<=3,N<=3 quick / W<=4,N<=4 thorough; replayed graphs up to (2,3) quick / (3,3) thorough; random runs W<=4, N<=40. Trusted: SeqCst atomics and std mpsc linearizable, hooks only at schedule points (a race inside one segment is only reachable by the free-running runs), 1.5 s no-progress time-out (re-run once).",
         technique="TLA+ spec of the ticket/turn/channel protocol model-checked with TLC; state-graph edge cover replayed as controlled thread schedules; recorded executions validated by TLC trace specs",
         ref="6 C05"),
+    "C06": dict(
+        text="TLC explores Batched.tla (one action per next() call and mode: greedy batch_from with the one-slot remainder, refill loop, stable sort, pop-from-back, every permutation of the shuffle buffer, every window of the transcribed find_subsequences_of_max_size_k loop) for all size sequences up to length 4 over {0,1,2,4} x limits x prefetch x limit types x modes; invariants: nothing lost or duplicated in any state, no empty batch, limit respected, plain mode input order and greedy-maximality, partition at the end, window-search postconditions; termination. Binding: the same space (raw limit/prefetch from 0, length <=4/5) and all window-search inputs are replayed on the real iterator twice per seed, plus random runs up to 40 items; every recorded iteration is validated by Trace_Batched: property predicates, and as mechanism conformance the exact batch sequence (plain, sorted) or step-by-step enabledness (shuffled modes).",
+        note="Bounded: exhaustive up to 4 (quick) / 5 (thorough) items; random up to 40 items, limits up to 64. The shuffle buffer is a bag in the spec. Seed determinism is checked by two runs per configuration.",
+        technique="TLA+ state machine of the four batching modes and the window search model-checked with TLC; TLC-enumerated configurations replayed; recorded iterations validated by a TLC trace spec (property + mechanism layer)",
+        ref="6 C06"),
     "C07": dict(
         text="TLC explores MultiGen.tla (cursor, finished flags, the two steps of the loop inside next()) for all source-length vectors up to 3-4 sources x lengths 0..3 and the three strategies incl. every weighted choice; invariants: per-source order and tags, exactly-once at the end, sequential = concatenation, interleaved = round robin over sources that still have items; termination under fairness; negative control: the pinned commit's re-selection hangs. Binding: every enumerated vector and random longer vectors are iterated to the end on the real generator under a watchdog, twice per seed, and each recorded iteration is validated by Trace_MultiGen against the spec's expected sequence (deterministic strategies) or membership predicates and seed reproducibility (weighted).",
         note="Bounded: <=4 sources, lengths <=3 exhaustively; random <=6 sources, lengths <=9. In-memory sources (the jsonl reader is exercised by C08). Hang = next() not returning within 5 s.",
